@@ -1,5 +1,6 @@
-(* C16 - the enlarged pure fragment: callNative's argument protocol, the native builtins and the methods on related
-   arguments. *)
+(* C16 - the enlarged pure fragment: callNative's argument protocol (positional and - third deepening - keyword arguments), the
+   native builtins and the methods on related arguments; enumerate / zip / dict.items() through the one allocation lemma
+   rows_list_vrel of Proof/C16_Pure2R.v. *)
 From Coq Require Import Lia.
 From PlzV Require Import Base.Harness Base.StrFacts Gen.AspTables Model.C16_Syntax Model.C16_Ops Model.C16_Prim Model.C16_Eval Model.C16 Model.C16_Pure Model.C16_Sort Model.C16_Pure2.
 From PlzV Require Import Proof.C16_Ops Proof.C16_Int Proof.C16_Pure Proof.C16_Pure2U Proof.C16_Pure2R Proof.C16_Pure2P.
@@ -97,20 +98,42 @@ Section Nat.
     Variable ev : expr -> res qval.
     Hypothesis HE : forall e st p, srel d st ps -> ev e = Ok p -> sim st (EE f e st) p.
 
-    Lemma native_loop_sim : forall sg va, sig_ok sg -> forall args i pslots slots pextra extra st pslots' pextra', srel d st ps ->
+    Lemma find_slot_sig : forall k sg j,
+      qfind_slot k (qsig_of sg) j =
+      (fix find (sg0 : list (str * N * option value)) (j : nat) : option nat :=
+         match sg0 with [] => None | (a, _, _) :: sr => if str_eqb a k then Some j else find sr (S j) end) sg j.
+    Proof.
+      intros k sg. induction sg as [|[[a t] def] sg IH]; intros j; cbn [qsig_of map qfind_slot fst snd]; [reflexivity|].
+      destruct (str_eqb a k); [reflexivity|]. apply IH.
+    Qed.
+
+    Lemma native_loop_sim : forall kwok sg va, sig_ok sg -> forall args i kw pslots slots pextra extra st pslots' pextra', srel d st ps ->
       Forall2 (orel (hp st)) pslots slots -> vrels d (hp st) pextra extra ->
-      qnative_loop ev (qsig_of sg) va args i pslots pextra = Ok (pslots', pextra') ->
+      qnative_loop ev kwok (qsig_of sg) va args i kw pslots pextra = Ok (pslots', pextra') ->
       exists slots' extra' st1, native_loop d [] f sg va args i slots extra st = Ok (slots', extra', st1) /\ xle st st1
         /\ Forall2 (orel (hp st1)) pslots' slots' /\ vrels d (hp st1) pextra' extra'.
     Proof.
-      intros sg va Hok args. induction args as [|[[k|] e] args IH]; intros i pslots slots pextra extra st pslots' pextra' Hs Hsl Hex H;
+      intros kwok sg va Hok args. induction args as [|[[k|] e] args IH]; intros i kw pslots slots pextra extra st pslots' pextra' Hs Hsl Hex H;
         cbn [qnative_loop native_loop] in *.
       - injection H as <- <-. exists slots, extra, st. split; [reflexivity|]. split; [apply xle_refl|now split].
-      - discriminate.
-      - unfold qsig_of in H at 1. rewrite map_length in H. destruct (Nat.leb (length sg) i).
+      - destruct (negb (kwok k)); [discriminate|]. rewrite find_slot_sig in H.
+        match type of H with match ?F with _ => _ end = _ => destruct F as [j|] end; [|discriminate].
+        destruct (nth j pslots None) eqn:Ej; [discriminate|].
+        rewrite nth_sig in H. destruct (nth j sg ([], 0%N, None)) as [[a t] def] eqn:En. cbn [fst snd] in H.
+        destruct (ev e) as [p| |] eqn:Ee; try discriminate. cbn [rbind] in H.
+        destruct (qvalidate t (option_map qscalar def) p) as [p'| |] eqn:Eva; try discriminate. cbn [rbind] in H.
+        destruct (HE e st p Hs Ee) as (v & st1 & Ev & Hx & Hv). rewrite Ev. cbn [rbind].
+        pose proof (sig_ok_nth sg j d (hp st1) Hok) as Hd. rewrite En in Hd. cbn [snd] in Hd.
+        destruct (validate_sim (hp st1) t def p v p' Hv Hd Eva) as (v' & Ev' & Hv'). rewrite Ev'. cbn [rbind].
+        destruct (IH (S i) true (list_set j (Some p') pslots) (list_set j (Some v') slots) pextra extra st1 pslots' pextra' (srel_xle d st st1 ps Hs Hx))
+          as (s' & e' & st2 & E2 & Hx2 & A & B); try assumption.
+        * apply list_set_orel; [exact Hv'|]. apply (orel_mono (hp st)); [apply Hx|exact Hsl].
+        * apply (vrels_mono d (hp st)); [apply Hx|exact Hex].
+        * exists s', e', st2. split; [exact E2|]. split; [now apply (xle_trans st st1)|now split].
+      - destruct kw; [discriminate|]. unfold qsig_of in H at 1. rewrite map_length in H. destruct (Nat.leb (length sg) i).
         + destruct va; [|discriminate]. destruct (ev e) as [p| |] eqn:Ee; try discriminate. cbn [rbind] in H.
           destruct (HE e st p Hs Ee) as (v & st1 & Ev & Hx & Hv). rewrite Ev. cbn [rbind].
-          destruct (IH (S i) pslots slots (pextra ++ [p]) (extra ++ [v]) st1 pslots' pextra' (srel_xle d st st1 ps Hs Hx)) as (s' & e' & st2 & E2 & Hx2 & A & B); try assumption.
+          destruct (IH (S i) false pslots slots (pextra ++ [p]) (extra ++ [v]) st1 pslots' pextra' (srel_xle d st st1 ps Hs Hx)) as (s' & e' & st2 & E2 & Hx2 & A & B); try assumption.
           * apply (orel_mono (hp st)); [apply Hx|exact Hsl].
           * apply Forall2_app; [apply (vrels_mono d (hp st)); [apply Hx|exact Hex]|constructor; [exact Hv|constructor]].
           * exists s', e', st2. split; [exact E2|]. split; [now apply (xle_trans st st1)|now split].
@@ -120,7 +143,7 @@ Section Nat.
           destruct (HE e st p Hs Ee) as (v & st1 & Ev & Hx & Hv). rewrite Ev. cbn [rbind].
           pose proof (sig_ok_nth sg i d (hp st1) Hok) as Hd. rewrite En in Hd. cbn [snd] in Hd.
           destruct (validate_sim (hp st1) t def p v p' Hv Hd Eva) as (v' & Ev' & Hv'). rewrite Ev'. cbn [rbind].
-          destruct (IH (S i) (list_set i (Some p') pslots) (list_set i (Some v') slots) pextra extra st1 pslots' pextra' (srel_xle d st st1 ps Hs Hx))
+          destruct (IH (S i) false (list_set i (Some p') pslots) (list_set i (Some v') slots) pextra extra st1 pslots' pextra' (srel_xle d st st1 ps Hs Hx))
             as (s' & e' & st2 & E2 & Hx2 & A & B); try assumption.
           * apply list_set_orel; [exact Hv'|]. apply (orel_mono (hp st)); [apply Hx|exact Hsl].
           * apply (vrels_mono d (hp st)); [apply Hx|exact Hex].
@@ -150,7 +173,7 @@ Section Nat.
 
     (* the argument list callNative hands to the native, for every continuation *)
     Lemma nargs_sim : forall n sg va, native_sig n = Some (sg, va) -> forall args st pvals, srel d st ps ->
-      (do '(filled, extra) <- qnative_loop ev (qsig_of sg) va args 0%nat (map (fun _ => @None qval) (qsig_of sg)) [];
+      (do '(filled, extra) <- qnative_loop ev (qkwok n) (qsig_of sg) va args 0%nat false (map (fun _ => @None qval) (qsig_of sg)) [];
        do vals <- qfill_defaults filled (qsig_of sg); Ok (vals ++ extra)) = Ok pvals ->
       exists vals st1,
         (forall K : list value -> state -> res (value * state),
@@ -163,7 +186,7 @@ Section Nat.
       destruct (qfill_defaults pfilled (qsig_of sg)) as [pv| |] eqn:Ef; try discriminate. cbn [rbind] in H. injection H as <-.
       assert (H0 : Forall2 (orel (hp st)) (map (fun _ => @None qval) (qsig_of sg)) (map (fun _ => @None value) sg)).
       { unfold qsig_of. rewrite map_map. clear. induction sg; cbn [map]; constructor; [exact I|assumption]. }
-      destruct (native_loop_sim sg va Hok args 0%nat _ _ [] [] st pfilled pextra Hs H0 (Forall2_nil _) El) as (filled & extra & st1 & E1 & Hx & A & B).
+      destruct (native_loop_sim (qkwok n) sg va Hok args 0%nat false _ _ [] [] st pfilled pextra Hs H0 (Forall2_nil _) El) as (filled & extra & st1 & E1 & Hx & A & B).
       destruct (fill_defaults_sim (hp st1) sg pfilled filled pv Hok A Ef) as (vals & E2 & Hv).
       exists (vals ++ extra), st1. split; [|split; [exact Hx|now apply Forall2_app]].
       intros K. rewrite E1. cbn [rbind]. rewrite E2. reflexivity.
@@ -268,6 +291,42 @@ Section Nat.
     destruct (kind_rel h p v Hp) as [K1 K2]. now rewrite K1, K2, IH1, IH2.
   Qed.
 
+  Lemma enum_rel : forall h pl l k, vrels d h pl l ->
+    Forall2 (vrels d h) (map (fun iv => [QInt (Z.of_nat (fst iv)); snd iv]) (combine (seq k (length pl)) pl))
+                        (map (fun iv => [VInt (Z.of_nat (fst iv)); snd iv]) (combine (seq k (length l)) l)).
+  Proof.
+    intros h pl l k H. revert k. induction H as [|p v pl l Hp _ IH]; intros k; cbn [length seq combine map]; constructor; [|apply IH].
+    cbn [fst snd]. constructor; [reflexivity|]. constructor; [exact Hp|constructor].
+  Qed.
+
+  Lemma as_lists_rel : forall st pvals vals pls, vrels d (hp st) pvals vals -> mapR qas_list pvals = Ok pls ->
+    exists ls, mapR (strict_list d st) vals = Ok ls /\ Forall2 (vrels d (hp st)) pls ls.
+  Proof.
+    intros st pvals vals pls H. revert pls. induction H as [|p v pvals vals Hp _ IH]; intros pls Hq; cbn [mapR] in *.
+    - injection Hq as <-. exists []. split; [reflexivity|constructor].
+    - destruct p; try discriminate. cbn [qas_list rbind] in Hq.
+      destruct (mapR qas_list pvals) as [prest| |] eqn:Er; try discriminate. cbn [rbind] in Hq. injection Hq as <-.
+      destruct (vrel_list_inv d st l v Hp) as (sl & -> & Hc & _). cbn [strict_list rbind].
+      destruct (IH prest eq_refl) as (rest & E & Hr). rewrite E. cbn [rbind]. exists (list_items d st sl :: rest). split; [reflexivity|now constructor].
+  Qed.
+
+  Lemma same_len_rel : forall h pls ls n m, n = m -> Forall2 (vrels d h) pls ls ->
+    forallb (fun l => Nat.eqb (length l) m) ls = forallb (fun l => Nat.eqb (length l) n) pls.
+  Proof.
+    intros h pls ls n m -> H. induction H as [|pl l pls ls Hl _ IH]; [reflexivity|]. cbn [forallb]. now rewrite (vrels_length _ _ _ _ Hl), IH.
+  Qed.
+
+  Lemma column_rel : forall h pls ls i, Forall2 (vrels d h) pls ls ->
+    vrels d h (map (fun l => nth i l QNone) pls) (map (fun l => nth i l VNone) ls).
+  Proof. intros h pls ls i H. induction H as [|pl l pls ls Hl _ IH]; cbn [map]; constructor; [now apply nth_vrels|exact IH]. Qed.
+
+  Lemma items_rel : forall h es kvs, env_rel d h es kvs ->
+    Forall2 (vrels d h) (map (fun kv => [QStr (fst kv); snd kv]) kvs) (map (fun kv => [VStr (fst kv); snd kv]) es).
+  Proof.
+    intros h es kvs H. induction H as [|kv pkv es kvs [Hk Hq] _ IH]; cbn [map]; constructor; [|exact IH].
+    constructor; [now rewrite Hk|]. constructor; [exact Hq|constructor].
+  Qed.
+
   Lemma native_sim : forall f n pvals vals st p, vrels d (hp st) pvals vals -> qnative f n pvals = Ok p -> sim st (native d f n vals st) p.
   Proof.
     intros f n pvals vals st p Hv H. unfold qnative in H. unfold native.
@@ -286,8 +345,20 @@ Section Nat.
       rewrite Hs. cbn [rbind]. eapply ok_here; reflexivity. }
     destruct (str_eqb n (s "bool")).
     { injection H as <-. rewrite (truthy_rel d st pa va H0). eapply ok_here; reflexivity. }
-    destruct (str_eqb n (s "enumerate")); [discriminate|].
-    destruct (str_eqb n (s "zip")); [discriminate|].
+    destruct (str_eqb n (s "enumerate")).
+    { destruct pa; try discriminate. injection H as <-. destruct (vrel_list_inv d st l va H0) as (sl & -> & Hc & _).
+      cbn [strict_list rbind].
+      rewrite (mapM_map (fun iv : nat * value => [VInt (Z.of_nat (fst iv)); snd iv]) (fun row st0 => Ok (new_list row st0))).
+      exact (rows_list_vrel d _ _ st (enum_rel (hp st) l _ 0%nat Hc)). }
+    destruct (str_eqb n (s "zip")).
+    { destruct (mapR qas_list pvals) as [pls| |] eqn:El; try discriminate. cbn [rbind] in H.
+      destruct (as_lists_rel st pvals vals pls Hv El) as (ls & E & Hls). rewrite E. cbn [rbind].
+      destruct Hls as [|pl0 l0 pls ls Hl0 Hls]; [discriminate|].
+      rewrite (same_len_rel (hp st) (pl0 :: pls) (l0 :: ls) (length pl0) (length l0) (eq_sym (vrels_length _ _ _ _ Hl0)) (Forall2_cons _ _ Hl0 Hls)).
+      destruct (forallb (fun l => Nat.eqb (length l) (length pl0)) (pl0 :: pls)); [|discriminate]. injection H as <-.
+      rewrite (mapM_map (fun i : nat => map (fun l => nth i l VNone) (l0 :: ls)) (fun row st0 => Ok (new_list row st0))).
+      rewrite (vrels_length _ _ _ _ Hl0).
+      apply (rows_list_vrel d _ _ st). apply Forall2_map_same. intros i. exact (column_rel (hp st) (pl0 :: pls) (l0 :: ls) i (Forall2_cons _ _ Hl0 Hls)). }
     destruct (str_eqb n (s "any")).
     { destruct pa; try discriminate. injection H as <-. destruct (vrel_list_inv d st l va H0) as (sl & -> & Hc & _).
       cbn [strict_list rbind]. rewrite (existsb_truthy_rel st l _ Hc). eapply ok_here; reflexivity. }
@@ -381,7 +452,10 @@ Section Nat.
         assert (Hk : vrels d (hp st) (map (@snd _ _) kvs) (map (@snd _ _) es)).
         { clear - H4. induction H4 as [|kv pkv es kvs [_ Hq] _ IH]; cbn [map]; constructor; [exact Hq|exact IH]. }
         destruct (new_list_vrel d st _ _ Hk) as (v & st' & E & Hx & Hv'). rewrite E. now exists v, st'. }
-      destruct (str_eqb m (s "items")); [discriminate|].
+      destruct (str_eqb m (s "items")).
+      { injection H as <-.
+        rewrite (mapM_map (fun kv : str * value => [VStr (fst kv); snd kv]) (fun row st0 => Ok (new_list row st0))).
+        exact (rows_list_vrel d _ _ st (items_rel (hp st) es kvs H4)). }
       discriminate.
   Qed.
 
